@@ -65,6 +65,15 @@ fn alphabet0(b: &Built) -> Vec<Op> {
         a.push(Op::Inc { pos, liq: 1, v2: pos % 2 == 0 });
         a.push(Op::Dec { pos, part: crate::ops::Part::Half, v2: pos % 2 == 1 });
     }
+    // deposits that name a neighbouring tick array for one bound (must be refused: the array does not hold the tick; an array
+    // addressed modulo its length would book the liquidity on another tick), v1 and v2, every position, both bounds, both sides
+    for pos in 0..n {
+        a.push(Op::IncTa { pos, liq: 1_000 + pos as u128, lower_shift: 1, upper_shift: 0, v2: pos % 2 == 0 });
+        a.push(Op::IncTa { pos, liq: 2_000 + pos as u128, lower_shift: 0, upper_shift: -1, v2: pos % 2 == 1 });
+    }
+    a.push(Op::IncTa { pos: 0, liq: 3_000, lower_shift: -1, upper_shift: 0, v2: true });
+    a.push(Op::IncTa { pos: 0, liq: 4_000, lower_shift: 0, upper_shift: 1, v2: false });
+    a.push(Op::Dec { pos: 0, part: crate::ops::Part::Wrap(5), v2: true });
     if b.w.pool.tick_spacing == 64 {
         // reposition_liquidity_v2: re-range position 0 (new bounds share tick array 0 with the other positions' bounds) and back
         a.push(Op::Repos { pos: 0, lower: -64, upper: 192, liq: stdworlds::BIG / 2 });
@@ -111,7 +120,7 @@ pub fn run(ctx: &Ctx) -> Report {
     let c = Counters { states_two_in_range: AtomicU64::new(0), states_with_ticks: AtomicU64::new(0), states_no_ticks: AtomicU64::new(0) };
     for b in &ws {
         let m = model(b, &c);
-        let out = poolexplore::run_world(ctx, &mut r, b, &m, ctx.depth(4, 6), share);
+        let out = poolexplore::run_world(ctx, &mut r, b, &m, ctx.depth(3, 6), share);
         poolexplore::fold(&mut r, &b.name, &out, &m.alphabet[..3]);
         if !r.violations.is_empty() {
             break;
